@@ -237,6 +237,7 @@ impl BCfg {
             L_DROP_DB => "drop the database handle (map handles stay)".into(),
             L_KEEP_ITER => format!("start an iterator on map {}, take one item, keep it alive", m.name),
             L_FILL => format!("read_fill_buffer() {}", via(l.handle)),
+            40 => "flush() [map m] with its first write refused by the operating system (ENOSPC), then the condition is lifted".to_string(),
             _ => format!("letter {:?}", l),
         }
     }
